@@ -52,7 +52,7 @@ type Fault struct {
 
 const BuiltinPath = "github.com/goplus/gogen/internal/builtin"
 
-var FaultKinds = []string{"generic_inst", "bti_call", "unsafe_ref", "unit_lit", "abort_return", "bigint_op", "discard_ref", "abort_stmt", "abort_init", "abort_endinit", "callex_err", "abort_header", "discard_reset", "vblock", "inline_closure"}
+var FaultKinds = []string{"generic_decl", "generic_inst", "bti_call", "unsafe_ref", "unit_lit", "abort_return", "bigint_op", "discard_ref", "abort_stmt", "abort_init", "abort_endinit", "callex_err", "abort_header", "discard_reset", "vblock", "inline_closure"}
 
 // Env is per-process: export data located once with the real go command, corpus with
 // the results of the acceptance dry run.
@@ -75,7 +75,13 @@ type CorpusEntry struct {
 // DiscardPaths are packages referenced only by discarded operands (never otherwise used by
 // synthetic programs), so that a leaked import is attributable.
 // ExtraStd are standard packages the injected constructs import.
-var ExtraStd = []string{"sync/atomic"}
+var ExtraStd = []string{"sync/atomic", "time"}
+
+// GenericPaths are packages whose only reference is the constraint of a generic declaration
+// injected by the generic_decl construct (never otherwise used by synthetic programs).
+var GenericPaths = []string{"cmp", "encoding", "hash", "image/color", "io/fs", "expvar"}
+
+var genericMember = map[string]string{"cmp": "Ordered", "encoding": "TextMarshaler", "hash": "Hash32", "image/color": "Color", "io/fs": "FileInfo", "expvar": "Var"}
 
 var DiscardPaths = []string{"encoding/json", "encoding/hex", "container/list", "hash/fnv", "bufio", "io"}
 
@@ -94,6 +100,7 @@ func NewEnv(corpus bool) (*Env, error) {
 	pkgs := append([]string{}, prog.StdImportPaths()...)
 	pkgs = append(pkgs, DiscardPaths...)
 	pkgs = append(pkgs, ExtraStd...)
+	pkgs = append(pkgs, GenericPaths...)
 	if corpus {
 		pkgs = append(pkgs, prog.CorpusPaths...)
 	}
@@ -674,6 +681,43 @@ func (in *injector) fire(c *minicl.Compiler, ft Fault) {
 		alias := c.Pkg.AliasType("ZzCount", types.Typ[types.Int])
 		inst := c.Pkg.Instantiate(orig, []types.Type{alias})
 		c.Pkg.NewVar(token.NoPos, inst, "ZzHits")
+	case "generic_decl":
+		// not a fault: a package-level generic function or generic type whose type-parameter
+		// constraint comes from an imported package - in most files the only reference to it
+		path := GenericPaths[mod(ft.Arg, len(GenericPaths))]
+		member := genericMember[path]
+		o := c.Pkg.Import(path).TryRef(member)
+		if o == nil {
+			in.r.FaultFired[ft.Kind]--
+			return
+		}
+		name := fmt.Sprintf("ZzGen%d", in.n)
+		in.n++
+		tp := types.NewTypeParam(types.NewTypeName(token.NoPos, c.Pkg.Types, "T", nil), o.Type())
+		if recoverTo(func() {
+			switch mod(ft.Arg/8, 3) {
+			case 0, 2:
+				x := types.NewParam(token.NoPos, c.Pkg.Types, "x", tp)
+				tps := []*types.TypeParam{tp}
+				if mod(ft.Arg/8, 3) == 2 { // the constraint on the second of two parameters
+					tps = []*types.TypeParam{types.NewTypeParam(types.NewTypeName(token.NoPos, c.Pkg.Types, "K", nil), types.Universe.Lookup("any").Type()), tp}
+				}
+				sig := types.NewSignatureType(nil, nil, tps, types.NewTuple(x), types.NewTuple(types.NewParam(token.NoPos, c.Pkg.Types, "", tp)), false)
+				fn, err := c.Pkg.NewFuncWith(token.NoPos, name, sig, nil)
+				if err != nil {
+					panic(err)
+				}
+				fn.BodyStart(c.Pkg).Val(x).Return(1).End()
+			case 1:
+				fld := types.NewField(token.NoPos, c.Pkg.Types, "V", tp, false)
+				c.Pkg.NewType(name).InitType(c.Pkg, types.NewStruct([]*types.Var{fld}, nil), tp)
+			}
+		}) {
+			in.r.FaultFired[ft.Kind]--
+			in.r.FaultFired["generic_decl_rejected"]++
+			return
+		}
+		c.TagRef(path, member)
 	case "bti_call":
 		// not a fault: a method of a builtin type registered by the front end (XGo configuration)
 		if !in.r.XGoBuiltin {
@@ -703,8 +747,17 @@ func (in *injector) fire(c *minicl.Compiler, ft Fault) {
 		c.B.EndInit(1)
 	case "unit_lit":
 		// not a fault: a literal with a unit of a type from a synthetic XGo package
-		if len(in.p.XGo) == 0 {
-			in.r.FaultFired[ft.Kind]--
+		if len(in.p.XGo) == 0 || mod(ft.Arg, 4) == 3 {
+			// the unit table gogen itself knows: time.Duration
+			o := c.Pkg.Import("time").TryRef("Duration")
+			if o == nil {
+				in.r.FaultFired[ft.Kind]--
+				return
+			}
+			c.B.DefineVarStart(token.NoPos, fmt.Sprintf("zzU%d", in.n))
+			in.n++
+			c.B.ValWithUnit(fmt.Sprint(2+mod(ft.Arg, 7)), o.Type(), []string{"s", "ms", "h", "us", "m"}[mod(ft.Arg, 5)])
+			c.B.EndInit(1)
 			return
 		}
 		x := in.p.XGo[mod(ft.Arg, len(in.p.XGo))]
